@@ -21,13 +21,14 @@ Theorem c02_reread_succeeds_iff : forall lv,
 Proof. exact reread_succeeds_iff. Qed.
 Print Assumptions c02_reread_succeeds_iff.
 
-(* What is read back: the same persisted state; pushedFlow empty; batchStart false, currentResume nil,
-   parentRun nil.  These four are exactly the members that are not persisted. *)
+(* What is read back: the same persisted state; pushedFlow empty; batchStart false, currentResume nil, parentRun loaded
+   again from the trigger when it carries a run summary (readSession calls prepareForSprint).  These four are exactly
+   the members that are not persisted. *)
 Theorem c02_reread_value : forall lv,
   parents_precede (s_runs (lv_core lv)) ->
   restore (persist lv) =
   Restored {| lv_core := set_pushed (lv_core lv) None; lv_batch_trigger := lv_batch_trigger lv;
-              lv_tr := {| t_batch := false; t_resume := None; t_parent := false |} |}.
+              lv_tr := {| t_batch := false; t_resume := None; t_parent := is_flow_action (s_trigger (lv_core lv)) |} |}.
 Proof. exact restore_persist_known. Qed.
 Print Assumptions c02_reread_value.
 
@@ -116,3 +117,12 @@ Theorem c02_per_call_and_exempt_members :
   names_with is_exempt session_classes = [].
 Proof. exact per_call_and_exempt_members. Qed.
 Print Assumptions c02_per_call_and_exempt_members.
+
+(* Since goflow f4c75dd readSession loads the parent run of a flow_action trigger: for every session a host can hold,
+   the session read back has parentRun loaded exactly when the session that was written had (not only from the next
+   engine call on); batchStart and currentResume remain the two members that are reset by a read and re-derived at the
+   next accepted resume (c02_context_rederived, c02_no_context_no_action). *)
+Theorem c02_reread_keeps_parent : forall a tmo lv lv',
+  reachable a tmo lv -> restore (persist lv) = Restored lv' -> t_parent (lv_tr lv') = t_parent (lv_tr lv).
+Proof. exact reread_keeps_parent. Qed.
+Print Assumptions c02_reread_keeps_parent.
